@@ -84,6 +84,7 @@ class CFGBuilder(AstVisitor[BB | None]):
         returns_none: bool,
         globals: Globals,
         unitary_flags: UnitaryFlags = UnitaryFlags.NoFlags,
+        parent: ast.AST | None = None,
     ) -> CFG:
         """Builds a CFG from a list of ast nodes.
 
@@ -109,7 +110,10 @@ class CFGBuilder(AstVisitor[BB | None]):
             if final_bb.reachable:
                 self.cfg.exit_bb.reachable = True
                 if not returns_none:
-                    raise GuppyError(ExpectedError(nodes[-1], "return statement"))
+                    # The body is empty if the function only consists of a docstring
+                    loc = nodes[-1] if nodes else parent
+                    assert loc is not None
+                    raise GuppyError(ExpectedError(loc, "return statement"))
 
         # Prune the CFG such that there are no jumps from unreachable code back into
         # reachable code. Otherwise, unreachable code could lead to unnecessary type
@@ -329,7 +333,9 @@ class CFGBuilder(AstVisitor[BB | None]):
         func_ty = check_signature(node, self.globals)
         returns_none = isinstance(func_ty.output, NoneType)
         # No UnitaryFlags are assigned to nested functions
-        cfg = CFGBuilder().build(node.body, returns_none, self.globals)
+        cfg = CFGBuilder().build(
+            node.body, returns_none, self.globals, parent=node
+        )
 
         new_node = NestedFunctionDef(
             cfg,
